@@ -2,7 +2,7 @@
 model (extracted) with mutagen._util on exhaustive small domains; direct slice-based oracle on the real
 functions incl. the real 1 MiB buffer."""
 import io, os, sys, itertools, tempfile
-from common import zs, hx, unhx, coq_bytes, vm_shard
+from common import zs, hx, unhx, coq_bytes, vm_shard, VERIF
 
 PROP = "C11"
 PROP_FILES = ["props/C11.v"]
@@ -22,7 +22,9 @@ MANIFEST = {
 RULE = ("correspondence: every (len f <= L, args in -1..len+1, BUF) tuple for the five functions, final bytes + exception class + final "
         "position compared between mutagen._util on BytesIO (and a real file for a sample) and the extracted generated model; "
         "direct oracle: slice-based reference on the real functions (patched small buffers, the real 2**20 buffer, explicit buffer sizes ABOVE 2**20, "
-        "and contents with NUL runs / constant bytes / repeated blocks so that byte values cannot matter). "
+        "and contents with NUL runs / constant bytes / repeated blocks so that byte values cannot matter; real file handles in every state a caller may "
+        "leave them in -- buffered with appended or overwritten bytes not yet flushed, unbuffered -- exhaustively over the small argument space, judged on what the "
+        "handle reads back and on the file on disk after closing). "
         "non-trivial = the call moved at least one byte or was rejected; distinct by (function, file length, arguments, BUF)")
 
 
@@ -292,6 +294,50 @@ def above_default_buffer(ctx):
                                   {"runner": "c11.above", "fn": "resize_file", "buf": buf, "size": size, "diff": newsize - size, "data": "len:%d" % size})
 
 
+def handle_states(ctx, maxlen=5, bufs=(1, 3)):
+    """the same requests through REAL file handles in every state a caller may leave them in: buffered with appended or
+    overwritten bytes not yet flushed, unbuffered, positioned anywhere -- the file is what the handle reads back; exhaustive
+    over the small argument space"""
+    U = _impl()
+    tmpd = tempfile.mkdtemp(dir=os.path.join(VERIF, ".run"), prefix="c11_")
+    path = os.path.join(tmpd, "f.bin")
+    try:
+        for buf in bufs:
+            with patched_buf(U, buf):
+                for n in range(0, maxlen + 1):
+                    data = bytes(range(1, n + 1))
+                    for fn in ("resize_bytes", "insert_bytes", "delete_bytes"):
+                        for args in arg_space(fn, n):
+                            for state in ("appended-unflushed", "overwritten-unflushed", "unbuffered"):
+                                k = n // 2
+                                with open(path, "wb") as h:
+                                    h.write(data[:k] if state == "appended-unflushed" else bytes(n) if state == "overwritten-unflushed" else data)
+                                f = open(path, "rb+", buffering=0) if state == "unbuffered" else open(path, "rb+")
+                                try:
+                                    if state == "appended-unflushed":
+                                        f.seek(0, 2)
+                                        f.write(data[k:])
+                                    elif state == "overwritten-unflushed":
+                                        f.write(data)
+                                    ri, pi, di = run_impl(U, fn, data, args, fobj=f)
+                                finally:
+                                    f.close()
+                                with open(path, "rb") as h:
+                                    ondisk = h.read()
+                                ctx.oracle_cases += 1
+                                ctx.count("oracle:handle-" + state)
+                                ctx.case(("handle", state, fn, n, args, buf) if di != data or ri != "ok" else None)
+                                if not oracle_check(ctx, fn, data, args, buf, ri, di, "handle:" + state):
+                                    return
+                                if ondisk != di:
+                                    ctx.violation("oracle", "%s: the file on disk after closing differs from what the handle read back" % fn,
+                                                  {"runner": "c11.handle", "fn": fn, "data": data.hex(), "pattern": "handle:" + state, "args": list(args), "buf": buf})
+                                    return
+    finally:
+        import shutil
+        shutil.rmtree(tmpd, ignore_errors=True)
+
+
 def vm_crosscheck(ctx):
     """the extracted binary must agree with the kernel's own evaluator on the same cases"""
     cases, keys = [], []
@@ -329,11 +375,13 @@ def run(ctx):
         direct_oracle(ctx, [4, 64, 1000], 60, 400)
         above_default_buffer(ctx)
         content_sensitive(ctx)
+        handle_states(ctx, 6, (1, 2, 3, 7))
     else:
         correspondence(ctx, 7, [1, 2, 3, 5, 8])
         direct_oracle(ctx, [4, 64], 6, 150)
         above_default_buffer(ctx)
         content_sensitive(ctx, (1, 2, 3), 7)
+        handle_states(ctx)
     vm_crosscheck(ctx)
 
 
@@ -356,13 +404,14 @@ def search(ctx, broken):
     direct_oracle(ctx, [4, 16, 64, 1000, 4096], 40, 600)
     above_default_buffer(ctx)
     content_sensitive(ctx)
+    handle_states(ctx)
     ctx.notes["search"] = "exhaustive len<=10 x BUF in {1,2,3,4,7} and lattices (incl. real buffer) found %d failing inputs" % (len(ctx.violations) - before)
 
 
 def replay(ctx, payload):
     U = _impl()
     d = payload.get("data", {})
-    if payload.get("kind") != "failing-input" or "fn" not in d or d.get("data", "").startswith("len:"):
+    if payload.get("kind") != "failing-input" or "fn" not in d or d.get("data", "").startswith("len:") or str(d.get("pattern", "")).startswith("handle:"):
         run(ctx)
         return bool(ctx.violations or ctx.disagreements)
     data = bytes.fromhex(d["data"])
